@@ -131,6 +131,7 @@ def _main(a, prop, mod, t0, tmp):
     for v in real:
         by_mech.setdefault(v['mechanism'], []).append(v)
     rdir = os.path.join(VERIF, 'replays', prop)
+    shutil.rmtree(rdir, ignore_errors=True)      # replay files of earlier runs are stale
     n = 0
     for mech, vs in sorted(by_mech.items()):
         for v in vs[:3]:
